@@ -150,6 +150,20 @@ static std::shared_ptr<crsd> graph_matrix(int n, unsigned long mask, int diag, i
     return vr::from_rows(n, n, rows);
 }
 
+// digraph on n nodes from a mask over the ordered pairs i != j (sorted by i*n+j: the encoding of
+// PmisModel.tla with Sym = FALSE): a_ij = -1 stored iff the bit is set (structurally non-symmetric),
+// diagonal 2 -> every stored link is strong, the reverse link may be absent
+static std::shared_ptr<crsd> digraph_matrix(int n, unsigned long mask) {
+    std::vector<std::vector<std::pair<int,double>>> rows(n);
+    int k = 0;
+    for (int i = 0; i < n; ++i) for (int j = 0; j < n; ++j) {
+        if (i == j) { rows[i].push_back(std::make_pair(j, 2.0)); continue; }
+        if ((mask >> k) & 1ul) rows[i].push_back(std::make_pair(j, -1.0));
+        ++k;
+    }
+    return vr::from_rows(n, n, rows);
+}
+
 // ------------------------------------------------------------------ aggr
 static void op_aggr(const char *tag, const crsd &A, const part &rp, int eps_num, int eps_den) {
     ++CASEID;
@@ -455,8 +469,30 @@ static void mode_aggr(uint64_t seed, bool th) {
             }
         }
     }
+    // non-symmetric strength (aggregates can vanish and are renumbered): every digraph on 3 nodes,
+    // the digraphs on 4 nodes thinned by the stride
+    for (int n = 3; n <= 4; ++n) {
+        auto parts = dv::all_parts(n, NP);
+        unsigned long nm = 1ul << (n * (n - 1));
+        int st = n == 3 ? std::max(1, stride / 16) : std::max(4, stride * 4);
+        for (unsigned long m = (seed % st); m < nm; m += st) {
+            for (size_t k = 0; k < parts.size(); ++k) {
+                if (st > 1 && parts.size() > 8 && ((m / st + k) % 3)) continue;
+                auto A = digraph_matrix(n, m);
+                GUARD(op_aggr("digraph", *A, parts[k], 1, 4));
+            }
+        }
+    }
     int reps = vr::env_int("VERIF_REPS", th ? 300 : 60);
     for (int r = 0; r < reps; ++r) {
+        if (r % 3 == 2) {
+            // random structurally non-symmetric matrix with a positive diagonal
+            int n = g.range(2, th ? 30 : 16);
+            auto A = vr::random_int(g, n, n, 0.15 + g.unit() * 0.2, 3, false, true);
+            for (size_t i = 0; i < A->nrows; ++i) for (ptrdiff_t j = A->ptr[i]; j < A->ptr[i + 1]; ++j) if (A->col[j] == (ptrdiff_t)i) A->val[j] = g.range(2, 5);
+            GUARD(op_aggr("randns", *A, thin_part(g, n, g.below(4)), 1, g.coin() ? 4 : 2));
+            continue;
+        }
         int n = g.range(2, th ? 40 : 24);
         auto A = vr::random_mmatrix(g, n, g.unit() * 0.25, 3, g.range(0, 2), g.coin(0.6));
         part rp = thin_part(g, n, g.below(4));
